@@ -320,7 +320,29 @@ func report(prop, tier string, seed int, results []*harnessResult, loadDur, wall
 			case j.err != nil:
 				inconclusive = append(inconclusive, fmt.Sprintf("%s: witness replay failed to run: %v", j.h, j.err))
 			case len(j.fail) > 0:
-				inconclusive = append(inconclusive, fmt.Sprintf("%s: native run of a path the engine found clean reports %v (translator or harness disagreement); model in %s", j.h, j.fail, j.path))
+				// failures the engine itself found in this harness (under labels of other properties, which this
+				// run does not report) are agreement, not disagreement
+				engineSaw := map[string]bool{}
+				for _, r := range results {
+					if r.info.name == j.h {
+						for _, o := range r.obligs {
+							if o.Result == "sat" {
+								engineSaw[o.Label] = true
+							}
+						}
+					}
+				}
+				var extra []string
+				for _, f := range j.fail {
+					if !engineSaw[f] {
+						extra = append(extra, f)
+					}
+				}
+				if len(extra) > 0 {
+					inconclusive = append(inconclusive, fmt.Sprintf("%s: native run of a path the engine found clean reports %v (translator or harness disagreement); model in %s", j.h, extra, j.path))
+				} else {
+					os.Remove(j.path)
+				}
 			default:
 				witnessValidated++
 				os.Remove(j.path)
